@@ -16,7 +16,7 @@ EXTRACT = ["C10"]
 BINS = ["c10"]
 NEEDS_CICADA = True
 ALLOWED_AXIOMS = []
-PINNED = ["C10_scan", "C10_full", "C10_refuted", "C10_partial", "C10_line", "C10_index_buffer", "C10_single_quoted", "C10_do_expansion_inert",
+PINNED = ["C10_scan", "C10_full", "C10_refuted", "C10_partial", "C10_double_quoted", "C10_line", "C10_index_buffer", "C10_single_quoted", "C10_do_expansion_inert",
           "C10_values_not_rescanned"]
 TRUSTED = [
     "Coq 8.16.1 kernel (coqc; coqchk in thorough); vm_compute only in concrete witnesses / non-vacuity examples",
@@ -30,8 +30,9 @@ TRUSTED = [
 ]
 ASSUMES = [
     "C10_partial / C10_line speak about words that are renderings of well-formed segment lists (every dollar starts a "
-    "well-formed reference, unbraced names are maximal); VALUES are unrestricted; the only excluded class is the gate's "
-    "exemption shapes: literal text with an open paren, or with '=' together with a backquote / single quote",
+    "well-formed reference, unbraced names are maximal); VALUES are unrestricted; excluded are only the gate's DELIBERATE "
+    "exemption shapes: literal text with an open paren, or with '=' together with a backquote (and, for tokens that are "
+    "not double-quoted, '=' together with a single quote: the alias-definition case)",
 ]
 
 SEGS_Q = ["a", "B", "$A", "${A}", "$AB", "${AB}", "$?", "$$", "{", "}", "$1", " ", ".", "$"]
@@ -91,12 +92,16 @@ def ref_subst(word, env, status, pid):
     return "".join(out), pieces, flags
 
 
-def classify(word, env, pieces, flags):
-    """Known_C10 mirrored (decidable on the WORD alone since e586def; values play no role): the gate
-    env_in_token exempts token shapes that need an open paren, or an equals sign together with a
-    backquote / single quote."""
-    if "(" in word or ("=" in word and ("`" in word or "'" in word)):
-        return {"exemption_pattern"}
+def classify(word, env, pieces, flags, tag=""):
+    """The DELIBERATE exemptions of the gate (not findings): shapes that postpone the expansion to an inner command
+    line (an open paren; an equals sign with a backquote) and, for tokens that are NOT double-quoted, the
+    alias-definition shape (an equals sign with a single quote: the user single-quoted that text).  Decidable on the
+    word and its tag; mirrors gate_ok / gate_ok_dq of Model/ExpandRef.v.  For such words only model == implementation
+    is demanded."""
+    if "(" in word or ("=" in word and "`" in word):
+        return {"by_design_exemption"}
+    if tag != '"' and "=" in word and "'" in word:
+        return {"by_design_exemption"}
     return set()
 
 
@@ -242,22 +247,18 @@ def run(ctx, res):
         if tg == "'":
             exp = w
         got = "HANG" if b == "HANG" else tok_text(b)
-        cls = classify(w, ENVS[ei], pieces, flags) if tg != "'" else set()
+        cls = classify(w, ENVS[ei], pieces, flags, tg) if tg != "'" else set()
         if i in md and tg != "'":
             # the extracted reference must agree with the oracle written here, and dom=T with "no known class"
-            mm = re.match(r'^"([^"]*)" "([^"]*)" wf=(.) gate=(.)$', md[i])
+            mm = re.match(r'^"([^"]*)" "([^"]*)" wf=(.) gate=(.) gateq=(.)$', md[i])
             if not mm or C.dec(mm.group(1)) != w or C.dec(mm.group(2)) != refs[i][0]:
                 violate(kind="oracle-self-check", input=w, env=env_desc, model=md[i], python=refs[i][0],
                         failing_input=False, note="extracted den_pieces and the driver's one-pass reference disagree")
-            elif (mm.group(4) == "T") != (not cls):
+            elif (mm.group(5 if tg == '"' else 4) == "T") != (not cls):
                 violate(kind="oracle-self-check", input=w, env=env_desc, model=md[i], classes=sorted(cls),
-                        failing_input=False, note="gate_ok (Coq) and the driver's class predicate disagree")
+                        failing_input=False, note="gate_ok / gate_ok_dq (Coq) and the driver's exemption predicate disagree")
         if a != b:
             # model and implementation differ
-            if got == exp and cls and any(c in known or (c + "_hang") in known for c in cls):
-                # inside a recorded class the implementation now meets the oracle: a repair (DESIGN 4.5)
-                res.extra["known_class_cases_meeting_the_oracle"] = res.extra.get("known_class_cases_meeting_the_oracle", 0) + 1
-                continue
             if got == exp:
                 violate(kind="correspondence", layer="L1", input=w, tag=tg, env=env_desc, model=a, impl=b,
                         failing_input=False, note="implementation meets the oracle here but differs from the model")
@@ -270,27 +271,26 @@ def run(ctx, res):
         if got == exp:
             continue
         # implementation == model, both differ from the reference: must be inside a recorded class
-        hit = [c for c in sorted(cls) if c in known or (c + "_hang") in known]
-        if not cls or not hit:
+        if not cls:
             violate(kind="oracle", layer="L1", input=w, tag=tg, env=env_desc, expected=exp, observed=got, model=a,
                     classes=sorted(cls), failing_input=True,
-                    note="parameter expansion differs from the one-pass reference outside every recorded class")
+                    note="parameter expansion differs from the one-pass reference (no finding is recorded for C10)")
         else:
             accepted += 1
-    res.extra["known_class_deviations"] = accepted
+    res.extra["by_design_exemption_cases"] = accepted
     mid = len(cases) // 2
     res.sample({"layer": "L1", "input": cases[mid][0], "env": ENVS[cases[mid][1]], "model": m1[mid],
                 "impl": i1.get(mid), "reference": refs[mid][0]})
     # ------------------------------------------------------------ L1l: whole token LISTS (index buffer + write-back)
     # every order of 2..3 tokens (sampled 4..5) over tags x texts: a quoted / skipped token in front of an expanded
     # one must not shift the write-back.  Oracle per token, positions preserved.
-    ltexts = ["$A", "x", "p${AB}q", "$B$A", "~", "a{b,c}"]
+    ltexts = ["$A", "x", "p${AB}q", "$B$A", "x='$A'", "~", "a{b,c}"]
     ltags = ["", '"', "'", "`", "\\"]
-    kinds = [(tg, tx) for tg in ltags for tx in ltexts[:4]]
+    kinds = [(tg, tx) for tg in ltags for tx in ltexts[:5]]
     lists = [list(t) for n in (2, 3) for t in itertools.product(kinds, repeat=n)
              if n == 2 or rng.random() < (0.5 if ctx.thorough else 0.12)]
     for _ in range(4000 if ctx.thorough else 800):
-        lists.append([(rng.choice(ltags), rng.choice(ltexts[:4])) for _ in range(rng.randint(4, 5))])
+        lists.append([(rng.choice(ltags), rng.choice(ltexts[:5])) for _ in range(rng.randint(4, 5))])
     lenv = ({"A": "va"}, {"B": "$A", "AB": "w w"})
     lw = world_field(lenv, 0)
     ll = [C.case("env", lw, str(FUEL), X.toks_field(t)) for t in lists]
@@ -304,8 +304,8 @@ def run(ctx, res):
     res.count("L1l_token_lists", len(ll))
 
     def tok_oracle(tg, tx):
-        if tg in ("'", "`"):
-            return tx
+        if tg in ("'", "`") or classify(tx, lenv, None, set(), tg):
+            return tx       # quoted, or one of the gate's deliberate exemptions (untagged x='$A')
         return ref_subst(tx, lenv, 0, MODEL_PID)[0]
 
     for k, (t, a, b) in enumerate(zip(lists + dlists, ml, il)):
@@ -330,7 +330,7 @@ def run(ctx, res):
     # the one recorded class, and the six classes repaired by e586def as regression cases (fixed:<name>):
     # for those the oracle must hold, nothing is tolerated
     replays = {
-        "exemption_pattern": ("x='$A'", ({}, {"A": "v"}), '"', "x='$A'"),
+        "fixed:exemption_dq": ("x='$A'", ({}, {"A": "v"}), '"', None),
         "fixed:value_rescanned": ("$A", ({}, {"A": "x$B", "B": "y"}), "", None),
         "fixed:self_reference_hang": ("$A", ({}, {"A": "$A"}), "", None),
         "fixed:mutual_reference_hang": ("$A", ({"A": "$B"}, {"B": "$A"}), "", None),
@@ -394,7 +394,7 @@ def run(ctx, res):
         res.count("L2_cicada_argv", len(l2))
         # several arguments with different quoting on one line (write-back positions)
         q2 = {"": "%s", '"': '"%s"', "'": "'%s'"}
-        l2l = [t for t in lists if all(tg in q2 for tg, _ in t) and all(tx != "~" for _, tx in t)]
+        l2l = [t for t in lists if all(tg in q2 for tg, _ in t) and all(tx not in ("~", "x='$A'") for _, tx in t)]
         l2l = rng.sample(l2l, min(len(l2l), 120 if ctx.thorough else 40))
 
         def one_l(t):
@@ -423,8 +423,7 @@ def run(ctx, res):
                 continue
             got = out[:-1] if out.endswith("\n") else out
             if got != exp:
-                cls = classify(w, env2, pieces, flags)
-                if not cls or not any(c in known or (c + "_hang") in known for c in cls):
+                if not classify(w, env2, pieces, flags, '"'):
                     violate(kind="oracle", layer="L2", input=line, expected=exp, observed=got, failing_input=True,
                             note="argv seen by the helper differs from the one-pass reference outside the recorded classes")
     finally:
